@@ -402,7 +402,8 @@ def slow_subscriber_case(node, wd, out, seed):
     import http.client
     import urllib.parse
     N = 300
-    g = grpcrig.GrpcClient(node.grpc_addr, wd, name="c10slow")
+    # small HTTP/2 receive windows (16 KiB, a constrained SDK): a stalled reader pushes back on the server after a few dozen pushes
+    g = grpcrig.GrpcClient(node.grpc_addr, wd, name="c10slow", env_extra={"VH_GRPC_H2_WINDOW": "16384"})
     info = {"keys": N}
     try:
         g.open_stream("s", setup={"clientVersion": "Nacos-Java-Client:v2.2.0", "labels": {"source": "sdk", "module": "config"}, "tenant": ""}, report=[NOTIFY])
